@@ -29,7 +29,7 @@ SHARDS = {"quick": 4, "thorough": 16}
 MIN_REACH = {
     "calls_logged": {"quick": 2000, "thorough": 60000},
     "missing_slots_checked": {"quick": 1200, "thorough": 40000},
-    "unsortable_axes_judged": {"quick": 8, "thorough": 300},
+    "unsortable_axes_judged": {"quick": 5, "thorough": 300},
     "rejections_checked": {"quick": 20, "thorough": 150},
     "case_sets_given_as_one_shot_iterators": {"quick": 100, "thorough": 2000},
     "rejections_checked_with_positional_cases": {"quick": 5, "thorough": 40},
